@@ -1,7 +1,8 @@
 (* C07 -- Tracing calls never panic, block or deadlock the host.
    Only pinned statements, closed by [exact lemma], with Print Assumptions. *)
 From Coq Require Import List NArith Bool.
-From FT Require Import Model.Base Model.Local Model.LocalProg Model.Spsc Proofs.LocalProofs Proofs.SpscProofs.
+From FT Require Import Model.Base Model.Local Model.LocalProg Model.Records Model.Spsc Model.Collector Model.System
+     Proofs.LocalProofs Proofs.SpscProofs Proofs.WfProofs Proofs.NoPanicProofs.
 Import ListNotations.
 Open Scope N_scope.
 
@@ -21,5 +22,60 @@ Theorem C07_send_bounded :
     push_step c f v = (c', false) -> (length (ch_pending c') < length (ch_pending c))%nat.
 Proof. exact @push_step_progress. Qed.
 
+(* THE WHOLE API, system level.  [sys_inv] (Proofs/WfProofs.v, NoPanicProofs.v): the objects
+   every thread holds (guards, local collectors, local spans, in creation order) match its
+   span stack -- each local span with a handle sits on the line current when it was opened,
+   the open spans of a line form its parent chain, line epochs strictly decrease down the
+   stack -- tokens are never empty, id prefixes are non-zero.  [action_ok]: the K3 boundary
+   (non-zero prefix at spawn), fewer than 2^64 steps, and the property's one precondition in
+   the only place the model can violate it: a local collector is not collected while local
+   spans opened after it are still open.  Every one of the 31 API calls (roots, children,
+   guards, local spans, collectors, properties and events by every route, closures returning,
+   cancel, drop, contexts, adapter polls), issued on a well-formed thread in either profile,
+   returns without reaching any panic site and leaves the system well-formed. *)
+Theorem C07_no_call_panics :
+  forall s th e c b,
+    tabs_inv s -> th_inv b th -> b + 1 < two64 -> e_prefix e = th_prefix th -> strict_call th c ->
+    call_post b th e (exec_call s th e c).
+Proof. exact exec_call_safe. Qed.
+
+(* hence no history -- any threads, any programs (closures that re-enter, guards moved out of
+   closures, refused openings, full queues), any schedule of pushes, exits and collector
+   micro-steps, any capacities, dev or release profile -- whose actions meet [action_ok]
+   ever shows a panic *)
+Theorem C07_no_history_panics :
+  forall dbg ringcap stackcap qcap h,
+    run_ok (sys_init dbg ringcap stackcap qcap) h ->
+    Forall (fun o => forall site, o <> OPanic site) (snd (run (sys_init dbg ringcap stackcap qcap) h)).
+Proof. exact no_panic_from_init. Qed.
+
+Theorem C07_step_keeps_well_formed :
+  forall s a, sys_inv s -> action_ok (s_tick s) a ->
+    sys_inv (fst (step s a)) /\ forall site, snd (step s a) <> OPanic site.
+Proof. exact step_no_panic. Qed.
+
+(* non-vacuity: a history with a scope, a local span with a properties closure that opens
+   another scope and leaves it open (F13), and a collector meets the hypothesis *)
+Example C07_run_ok_example :
+  run_ok (sys_init true 4 8 8)
+    [ASpawn 0 1 0; AInstall false; ACall 0 (KRoot 1 1 1001 0 true); APush 0;
+     ACall 0 (KSetLocal 2 1); ACall 0 (KLEnter 4 5); ACall 0 (KLWithProps 4 [(7, 8)]);
+     ACall 0 (KSetLocal 5 1); ACall 0 KClosureRet; ACall 0 (KDropGuard 5); APush 0; ACall 0 (KLExit 4);
+     ACall 0 (KLcStart 6); ACall 0 (KLcCollect 6 9); ACall 0 (KDropGuard 2); APush 0; ACall 0 (KDropSpan 1); APush 0; APush 0].
+Proof. apply run_okb_sound. vm_compute. reflexivity. Qed.
+
+(* and the model does execute it without a refused action *)
+Example C07_run_ok_example_runs :
+  forallb (fun o => match o with OBad _ | OPanic _ => false | _ => true end)
+    (snd (run (sys_init true 4 8 8)
+    [ASpawn 0 1 0; AInstall false; ACall 0 (KRoot 1 1 1001 0 true); APush 0;
+     ACall 0 (KSetLocal 2 1); ACall 0 (KLEnter 4 5); ACall 0 (KLWithProps 4 [(7, 8)]);
+     ACall 0 (KSetLocal 5 1); ACall 0 KClosureRet; ACall 0 (KDropGuard 5); APush 0; ACall 0 (KLExit 4);
+     ACall 0 (KLcStart 6); ACall 0 (KLcCollect 6 9); ACall 0 (KDropGuard 2); APush 0; ACall 0 (KDropSpan 1); APush 0; APush 0])) = true.
+Proof. vm_compute. reflexivity. Qed.
+
 Print Assumptions C07_well_nested_never_panics.
 Print Assumptions C07_send_bounded.
+Print Assumptions C07_no_call_panics.
+Print Assumptions C07_no_history_panics.
+Print Assumptions C07_step_keeps_well_formed.
